@@ -58,6 +58,40 @@ type Exch struct {
 type Attack struct {
 	Kind   string `json:"kind"`
 	Target string `json:"target"`
+	// Spell: the victim's DID is written in another spelling wherever the attack names it (request did, attached
+	// document id, from, initialState, from_prior iss): "case" (letter case of the method-specific id swapped), "scheme"
+	// (DID:PEER:), "space" (trailing blank), "pct" (one character percent-encoded).
+	Spell string `json:"spell,omitempty"`
+}
+
+func spellDID(d, how string) string {
+	i := strings.LastIndex(d, ":")
+	if i < 0 || i+2 >= len(d) {
+		return d
+	}
+
+	switch how {
+	case "case":
+		b := []byte(d)
+		for j := i + 1; j < len(b); j++ {
+			switch {
+			case b[j] >= 'a' && b[j] <= 'z':
+				b[j] -= 32
+			case b[j] >= 'A' && b[j] <= 'Z':
+				b[j] += 32
+			}
+		}
+
+		return string(b)
+	case "scheme":
+		return strings.ToUpper(d[:i+1]) + d[i+1:]
+	case "space":
+		return d + " "
+	case "pct":
+		return d[:i+2] + fmt.Sprintf("%%%02X", d[i+2]) + d[i+3:]
+	}
+
+	return d
 }
 
 // Spec is a replayable case.
@@ -1353,7 +1387,19 @@ func (r *runner) attack(at Attack) error {
 	}
 
 	sender := mdest.RecipientKeys[0]
-	rename := func(to string) string { return strings.ReplaceAll(string(raw), baseDID, to) }
+	named := spellDID(victimDID, at.Spell) // how the victim's DID is written in mallory's messages
+
+	if _, e := did.Parse(named); e != nil || (at.Spell != "" && at.Spell != "case") {
+		w.noCoq("a DID spelling that some of the code's parsers refuse (upper-case scheme, blank, percent-encoding): direct oracle only")
+	}
+
+	rename := func(to string) string {
+		if to == victimDID {
+			to = named
+		}
+
+		return strings.ReplaceAll(string(raw), baseDID, to)
+	}
 	fakeDID := "did:peer:1zQm" + base58ish(r.rng, 44)
 	victimKeys := x.Resolve(victimDID).RecKeys
 
@@ -1379,6 +1425,14 @@ func (r *runner) attack(at Attack) error {
 	}
 
 	request := func(thid, pthid, didv, doc string) map[string]interface{} {
+		if didv == victimDID {
+			didv = named
+		}
+
+		if named != victimDID {
+			doc = strings.ReplaceAll(doc, victimDID, named)
+		}
+
 		m := map[string]interface{}{"@type": dxRequest, "@id": thid, "label": "mallory", "~thread": map[string]interface{}{"pthid": pthid},
 			"did": didv}
 		if doc != "" {
@@ -1501,7 +1555,7 @@ func (r *runner) attack(at Attack) error {
 		}
 
 		m := map[string]interface{}{"@type": lcRequest, "@id": uuid.New().String(), "label": "mallory",
-			"~thread": map[string]interface{}{"pthid": linv.ID}, "connection": map[string]interface{}{"DID": victimDID, "DIDDoc": legacy}}
+			"~thread": map[string]interface{}{"pthid": linv.ID}, "connection": map[string]interface{}{"DID": named, "DIDDoc": legacy}}
 
 		return w.M.ctx.OutboundDispatcher().Send(m, sender, &service.Destination{
 			RecipientKeys: linv.RecipientKeys, ServiceEndpoint: model.NewDIDCommV1Endpoint(x.Endpoint)})
@@ -1607,7 +1661,88 @@ func (r *runner) attack(at Attack) error {
 		delta, _ := json.Marshal([]map[string]interface{}{{"change": base64.URLEncoding.EncodeToString(jb), "when": time.Now()}})
 
 		return send(map[string]interface{}{"@type": basicType, "@id": uuid.New().String(),
-			"from": victimDID + "?initialState=" + base64.RawURLEncoding.EncodeToString(delta)}, inv)
+			"from": named + "?initialState=" + base64.RawURLEncoding.EncodeToString(delta)}, inv)
+	case "init-keysteal": // a message whose from/initialState names the victim DID with a document listing the VICTIM's key and mallory's endpoint
+		if len(victimKeys) == 0 {
+			return fmt.Errorf("victim keys unknown")
+		}
+
+		var dm map[string]interface{}
+		if e := json.Unmarshal([]byte(rename(victimDID)), &dm); e != nil {
+			return e
+		}
+
+		if svcs, _ := dm["service"].([]interface{}); len(svcs) > 0 {
+			if first, ok := svcs[0].(map[string]interface{}); ok {
+				first["recipientKeys"] = []string{victimKeys[0]}
+			}
+		}
+
+		docb, e := json.Marshal(dm)
+		if e != nil {
+			return e
+		}
+
+		pd, e := did.ParseDocument(docb)
+		if e != nil {
+			return e
+		}
+
+		jb, e := pd.JSONBytes()
+		if e != nil {
+			return e
+		}
+
+		delta, _ := json.Marshal([]map[string]interface{}{{"change": base64.URLEncoding.EncodeToString(jb), "when": time.Now()}})
+
+		return send(map[string]interface{}{"@type": basicType, "@id": uuid.New().String(),
+			"from": named + "?initialState=" + base64.RawURLEncoding.EncodeToString(delta)}, inv)
+	case "req-related-thread": // mallory's own exchange on a thread id RELATED to the victim's (common prefix, case variant, prefix/extension)
+		target := vrec.ThreadID
+
+		for _, e := range r.exs {
+			if !e.done && e.Inviter == at.Target && e.Invitee != "mallory" && e.Style == "dx" && e.inviteeConn != "" {
+				target = e.invID
+			}
+		}
+
+		if len(target) < 34 {
+			return fmt.Errorf("thread id too short")
+		}
+
+		flip := func(c byte) string {
+			if c == 'f' {
+				return "0"
+			}
+
+			return "f"
+		}
+
+		var th string
+
+		switch r.rng.Intn(6) {
+		case 0: // same first 32 characters, other tail
+			th = target[:32] + flip(target[32]) + flip(target[33]) + target[34:]
+		case 1: // same first 16
+			th = target[:16] + base58ish(r.rng, len(target)-16)
+		case 2: // differs in the last character only
+			th = target[:len(target)-1] + flip(target[len(target)-1])
+		case 3:
+			th = strings.ToUpper(target)
+		case 4: // the victim's id is a prefix of it
+			th = target + "-0001"
+		default: // it is a prefix of the victim's id
+			th = target[:32]
+		}
+
+		if e := send(request(th, inv.ID, fakeDID, rename(fakeDID)), inv); e != nil {
+			return e
+		}
+
+		r.drain(nil)
+
+		return send(map[string]interface{}{"@type": dxComplete, "@id": uuid.New().String(),
+			"~thread": map[string]interface{}{"thid": th, "pthid": inv.ID}}, inv)
 	case "complete-replay": // a complete on the victim connection's own thread
 		return send(map[string]interface{}{"@type": dxComplete, "@id": uuid.New().String(),
 			"~thread": map[string]interface{}{"thid": vrec.ThreadID}}, inv)
@@ -1633,7 +1768,7 @@ func (r *runner) attack(at Attack) error {
 		return send(m, inv)
 	case "ping-from-spoof": // an ordinary message over mallory's own connection, naming the victim as its `from`
 		id := uuid.New().String()
-		msg := service.DIDCommMsgMap{"@id": id, "@type": basicType, "from": victimDID}
+		msg := service.DIDCommMsgMap{"@id": id, "@type": basicType, "from": named}
 
 		if e := w.M.ctx.Messenger().Send(msg, me.y.MyDID, me.y.TheirDID); e != nil {
 			return e
@@ -1654,7 +1789,7 @@ func (r *runner) attack(at Attack) error {
 	case "rotate-takeover", "rotate-takeover-relkid": // a v2 message whose from_prior says the victim DID rotated to mallory's, signed by mallory
 		mdoc := dr.DIDDocument
 		forged := *mdoc
-		forged.ID = victimDID
+		forged.ID = named
 		forged.VerificationMethod = append([]did.VerificationMethod{}, mdoc.VerificationMethod...)
 		kid := mdoc.VerificationMethod[0].ID
 
@@ -1977,7 +2112,7 @@ func base58ish(r *hx.Rng, n int) string {
 
 var attackKinds = []string{"req-repoint", "req-repoint-badpthid", "req-repoint-keys", "req-repoint-endpoint", "req-repoint-routing", "req-repoint-accept", "req-repoint-priority", "req-repoint-svctype",
 	"req-repoint-relationship", "req-repoint-svcid", "req-docid-mismatch",
-	"req-docid-fresh", "lc-req-repoint", "req-id-remap", "req-id-remap-known", "resp-case-remap", "resp-case-remap-wrapper", "complete-case-remap", "ping-from-spoof", "rotate-takeover", "rotate-takeover-relkid", "req-nodoc", "req-keysteal", "req-keysteal-notation", "req-keysteal-indy", "req-keysteal-indy-didkey", "req-keysteal-second-block",
+	"req-docid-fresh", "lc-req-repoint", "req-id-remap", "req-id-remap-known", "resp-case-remap", "resp-case-remap-wrapper", "complete-case-remap", "ping-from-spoof", "rotate-takeover", "rotate-takeover-relkid", "req-nodoc", "init-keysteal", "req-related-thread", "req-keysteal", "req-keysteal-notation", "req-keysteal-indy", "req-keysteal-indy-didkey", "req-keysteal-second-block",
 	"req-keysteal-v2-block", "init-repoint",
 	"complete-replay", "req-same-thread", "resp-forge", "ping-unknown", "owner-reuse"}
 
@@ -2088,6 +2223,28 @@ func main() {
 				add("attack", s)
 			}
 		}
+	}
+
+	// the attacks that name the victim's DID, with the DID written in another spelling
+	for _, ak := range []string{"req-repoint", "req-repoint-endpoint", "init-repoint", "init-keysteal", "rotate-takeover", "ping-from-spoof", "lc-req-repoint"} {
+		for _, sp := range []string{"case", "scheme", "space", "pct"} {
+			for _, target := range []string{"alice", "bob"} {
+				add("spelling", &Spec{Cfg: cfgs[0], Seed: rng.U64(), Exch: []Exch{{Inviter: "alice", Invitee: "bob", Style: "dx"}, withM(target)},
+					Attacks: []Attack{{Kind: ak, Target: target, Spell: sp}}})
+			}
+		}
+	}
+
+	// related thread ids: several tries per side, also while a further exchange is under way
+	for i := 0; i < 12; i++ {
+		target := []string{"alice", "bob"}[i%2]
+		s := &Spec{Cfg: cfgs[0], Seed: rng.U64(), Exch: []Exch{{Inviter: "alice", Invitee: "bob", Style: "dx"}, withM(target)},
+			Attacks: []Attack{{Kind: "req-related-thread", Target: target}, {Kind: "req-related-thread", Target: target}}}
+		if i%3 == 0 {
+			s.Late = []Exch{{Inviter: target, Invitee: map[string]string{"alice": "bob", "bob": "alice"}[target], Style: "dx"}}
+		}
+
+		add("threads", s)
 	}
 
 	// every attack after a restart of the attacked agent (what was stored must be as binding as before)
@@ -2241,7 +2398,12 @@ func main() {
 		s.Exch = append(s.Exch, withM(target))
 
 		for j, n := 0, 1+rng.Intn(4); j < n; j++ {
-			s.Attacks = append(s.Attacks, Attack{Kind: attackKinds[rng.Intn(len(attackKinds))], Target: target})
+			at := Attack{Kind: attackKinds[rng.Intn(len(attackKinds))], Target: target}
+			if rng.Intn(4) == 0 {
+				at.Spell = []string{"case", "scheme", "space", "pct"}[rng.Intn(4)]
+			}
+
+			s.Attacks = append(s.Attacks, at)
 		}
 
 		if rng.Intn(3) == 0 {
